@@ -1,4 +1,5 @@
 import DVP.Lemmas.LoopReset
+import DVP.Lemmas.LoopIdem
 /-!
 # C13 — results do not depend on call history; reset restores the initial state
 
@@ -38,6 +39,23 @@ theorem at_target_noop (cfg : Cfg ℚ) (s : Sys ℚ) (target : ℚ) (orc : Oracl
   split
   · rfl
   · rw [if_pos (by rw [DVP.Brent.absC_rat]; exact hat)]
+
+/-- **… and so does a repeated call**: once `integrate(T)` has ended normally (its loop guard became false —
+the target is reached to within `tolEps`, which may be wider than the `eps` window of `at_target_noop`),
+calling `integrate(T)` again makes no integrator call and records no sample, whatever the integrator and the
+callbacks would do. -/
+theorem repeated_call_idle (cfg : Cfg ℚ) (s : Sys ℚ) (target : ℚ) (orc orc' : Oracle ℚ) (fuel fuel' : Nat)
+    (h : (integrate cfg s target orc fuel).guardExit = true) :
+    (integrate cfg (integrate cfg s target orc fuel).sys target orc' fuel').sys.ts = (integrate cfg s target orc fuel).sys.ts ∧
+    (integrate cfg (integrate cfg s target orc fuel).sys target orc' fuel').reqs = [] ∧
+    (integrate cfg (integrate cfg s target orc fuel).sys target orc' fuel').iters = 0 :=
+  second_call_idle cfg s target orc orc' fuel fuel' h
+
+/-- non-vacuity: a run of four steps that ends through the guard -/
+example : (integrate (α := ℚ) { eps := 1/2^50, tolEps := 1/2^47, half := 1/2 } (construct (α := ℚ) 0 1 (3/10)) 1
+      (fun _ _ h => { ret := .ok h h }) 50).guardExit = true ∧
+    (integrate (α := ℚ) { eps := 1/2^50, tolEps := 1/2^47, half := 1/2 } (construct (α := ℚ) 0 1 (3/10)) 1
+      (fun _ _ h => { ret := .ok h h }) 50).sys.ts = [1, 9/10, 3/5, 3/10, 0] := by decide +kernel
 
 /-- assigning `dt` never moves the trajectory -/
 theorem setDt_keeps_grid (s : Sys ℚ) (v : ℚ) : (setDt s v).ts = s.ts ∧ (setDt s v).status = s.status := ⟨rfl, rfl⟩
